@@ -502,3 +502,180 @@ func callsOfGeneric(g, callee *ssa.Function) []ssa.CallInstruction {
 	})
 	return out
 }
+
+// ttlNoWrap: stringToTTL's accumulators cannot wrap: they are 64 bits wide on every platform and each value carried
+// round the loop is bounded by a rejecting comparison with a constant of at most 2^32 (so the largest product,
+// bound * 604800, stays far below 2^64).
+func ttlNoWrap(c *Ctx, r *Report, rule string) {
+	r.rule(rule, 2, "stringToTTL's accumulators are 64-bit on every platform and are bounded by 2^32 on every way round the loop (no wrap-around)")
+	fn := c.ssaFunc("stringToTTL")
+	if fn == nil {
+		r.cerr(rule, "stringToTTL", "function not found")
+		return
+	}
+	r.fn("stringToTTL")
+	sizes32 := types.SizesFor("gc", "386")
+	n := 0
+	allInstrs(fn, func(in ssa.Instruction) {
+		phi, ok := in.(*ssa.Phi)
+		if !ok {
+			return
+		}
+		bt, ok := phi.Type().Underlying().(*types.Basic)
+		if !ok || bt.Info()&types.IsInteger == 0 {
+			return
+		}
+		// a loop-header phi: one of its edges comes from a block it dominates
+		hdr := phi.Block()
+		isHeader := false
+		for _, p := range hdr.Preds {
+			if hdr.Dominates(p) {
+				isHeader = true
+			}
+		}
+		if !isHeader {
+			return
+		}
+		// only accumulators: some back-edge value is arithmetic on the phi (through the switch's merge phis)
+		arith := false
+		for _, l := range phiLeaves(phi) {
+			if b, ok := l.(*ssa.BinOp); ok && (b.Op == token.ADD || b.Op == token.MUL) {
+				arith = true
+			}
+		}
+		if !arith {
+			return
+		}
+		n++
+		name := phi.Comment
+		if name == "" {
+			name = phi.Name()
+		}
+		construct := "stringToTTL:" + name
+		var problems []string
+		if sizes32.Sizeof(bt) < 8 {
+			problems = append(problems, fmt.Sprintf("the accumulator is a %s, 32 bits wide on 32-bit platforms: 4294967296 wraps to 0 there", bt.Name()))
+		}
+		for i, e := range phi.Edges {
+			pred := hdr.Preds[i]
+			if !hdr.Dominates(pred) {
+				continue
+			}
+			if _, isK := e.(*ssa.Const); isK {
+				continue
+			}
+			_, hi, _, hasHi := intervalAt(fn, pred, isValue(e))
+			if ef, ok := edgeFact(pred, hdr); ok {
+				if _, h2, _, has2 := intervalFromFact(ef, isValue(e)); has2 && (!hasHi || h2 < hi) {
+					hi, hasHi = h2, true
+				}
+			}
+			if !hasHi || hi > 1<<32 {
+				problems = append(problems, fmt.Sprintf("the value carried round the loop (%s) is not bounded by a rejecting comparison: enough digits (or a unit suffix after a large number) wrap the accumulator, and a TTL such as 18446744073709551617 is accepted as 1", describeValue(e)))
+			}
+		}
+		r.check(len(problems) == 0, rule, construct, c.pos(phi.Pos()), "64-bit, bounded by 2^32 each round", "%s", strings.Join(problems, "; "))
+	})
+	if n == 0 {
+		r.undecided(rule, "stringToTTL", c.pos(fn.Pos()), "no accumulator found in stringToTTL's loop")
+	}
+}
+
+// endingConsumesLine: the ending* helpers read up to and including the end of the line; a parse method that reads
+// another token afterwards (directly or through slurpRemainder) takes it from the next line.
+func endingConsumesLine(c *Ctx, r *Report, rule string) {
+	r.rule(rule, 20, "no RDATA parser reads a further token after endingToString / endingToTxtSlice returned (they consume the end of the line)")
+	enders := map[string]bool{"endingToString": true, "endingToTxtSlice": true}
+	readers := map[string]bool{"(zlexer).Next": true, "slurpRemainder": true, "(zlexer).Peek": true}
+	for _, T := range c.rrTypes() {
+		fn := c.ssaFunc(T.Name + ".parse")
+		if fn == nil {
+			continue
+		}
+		for _, sub := range withAnon(fn) {
+			n := 0
+			allInstrs(sub, func(in ssa.Instruction) {
+				ci, ok := in.(ssa.CallInstruction)
+				if !ok || !enders[calleeNameSSA(ci.Common())] {
+					return
+				}
+				n++
+				r.fn(fnDisplay(sub))
+				// any reader call reachable after this call
+				var bad []string
+				blk := in.Block()
+				check := func(x ssa.Instruction) {
+					if cj, ok := x.(ssa.CallInstruction); ok && readers[calleeNameSSA(cj.Common())] {
+						bad = append(bad, fmt.Sprintf("%s calls %s", c.pos(x.Pos()), calleeNameSSA(cj.Common())))
+					}
+				}
+				for i := instrIndex(in) + 1; i < len(blk.Instrs); i++ {
+					check(blk.Instrs[i])
+				}
+				seen := map[*ssa.BasicBlock]bool{}
+				stack := append([]*ssa.BasicBlock{}, blk.Succs...)
+				for len(stack) > 0 {
+					b := stack[len(stack)-1]
+					stack = stack[:len(stack)-1]
+					if seen[b] {
+						continue
+					}
+					seen[b] = true
+					if b == blk {
+						continue // round a loop: the ender itself is called again first
+					}
+					for _, x := range b.Instrs {
+						check(x)
+					}
+					stack = append(stack, b.Succs...)
+				}
+				construct := fmt.Sprintf("%s:%s#%d", fnDisplay(sub), calleeNameSSA(ci.Common()), n)
+				r.check(len(bad) == 0, rule, construct, c.pos(in.Pos()), "nothing read afterwards", "%s after the rest of the line (newline included) was consumed: the first token of the next line is swallowed, and a record or directive that directly follows this one fails with 'garbage after rdata'", strings.Join(uniqStrings(bad), "; "))
+			})
+		}
+	}
+}
+
+// rfc3597Whole: converting the generic \# form into the known type decodes exactly the stated octets: the offset
+// the type's unpack returns is compared with the length of the RDATA.
+func rfc3597Whole(c *Ctx, r *Report, rule string) {
+	r.rule(rule, 1, "fromRFC3597 checks that the known type's unpack consumed the RDATA exactly")
+	fn := c.ssaFunc("RFC3597.fromRFC3597")
+	if fn == nil {
+		r.cerr(rule, "RFC3597.fromRFC3597", "function not found")
+		return
+	}
+	r.fn("RFC3597.fromRFC3597")
+	n := 0
+	allInstrs(fn, func(in ssa.Instruction) {
+		call, ok := in.(*ssa.Call)
+		if !ok || !call.Call.IsInvoke() || call.Call.Method.Name() != "unpack" {
+			return
+		}
+		n++
+		compared := false
+		for _, ref := range *call.Referrers() {
+			ex, ok := ref.(*ssa.Extract)
+			if !ok || ex.Index != 0 {
+				continue
+			}
+			for _, r2 := range *ex.Referrers() {
+				bin, ok := r2.(*ssa.BinOp)
+				if !ok || (bin.Op != token.EQL && bin.Op != token.NEQ) {
+					continue
+				}
+				other := bin.Y
+				if other == ssa.Value(ex) {
+					other = bin.X
+				}
+				if lc, ok := other.(*ssa.Call); ok && calleeNameSSA(&lc.Call) == "builtin.len" && lc.Call.Args[0] == call.Call.Args[0] {
+					compared = true
+				}
+			}
+		}
+		r.check(compared, rule, fmt.Sprintf("fromRFC3597:unpack#%d", n), c.pos(call.Pos()), "off == len(msg)", "the offset returned by the known type's unpack is not compared with the RDATA length: surplus octets of `A \\# 5 0102030405` are dropped silently and the record reads back as something its text does not say (UnpackRR refuses the same octets)")
+	})
+	if n == 0 {
+		r.undecided(rule, "RFC3597.fromRFC3597", c.pos(fn.Pos()), "no call of the known type's unpack found")
+	}
+}
